@@ -156,6 +156,21 @@ func valueRoots(v ssa.Value, through func(callee string) bool) []Root {
 				for _, st := range storesThroughMaps(a) {
 					sts = append(sts, st)
 				}
+				/* A struct variable read whole: what was put into its
+				fields is in it. */
+				if _, isStruct := a.Type().Underlying().(*types.Pointer).Elem().Underlying().(*types.Struct); isStruct && nil != a.Referrers() {
+					for _, ref := range *a.Referrers() {
+						fa, isFA := ref.(*ssa.FieldAddr)
+						if !isFA || nil == fa.Referrers() {
+							continue
+						}
+						for _, r2 := range *fa.Referrers() {
+							if st, isSt := r2.(*ssa.Store); isSt && st.Addr == ssa.Value(fa) {
+								sts = append(sts, st)
+							}
+						}
+					}
+				}
 				if 0 == len(sts) {
 					out = append(out, Root{Kind: "alloc", V: a})
 				}
